@@ -55,8 +55,9 @@ func (t *Template) Exec(ctx hctx.Context) (string, error) {
 	}
 
 	ev := compiler{
-		ctx:     ctx,
-		program: t.program,
+		ctx:         ctx,
+		program:     t.program,
+		loopControl: &loopSignal{},
 	}
 
 	s, err := ev.compile()
